@@ -13,8 +13,10 @@ class _StubTree(object):
             self.namespace = ns
 
     def __init__(self, cdata):
-        self.defaultNamespace = "http://www.w3.org/1999/xhtml"
-        self.openElements = [self._N("http://www.w3.org/2000/svg" if cdata else self.defaultNamespace)]
+        # cdata: True (current node is foreign), False (an HTML element, namespaced), "nons" (an HTML element of a tree
+        # built with namespaceHTMLElements=False: its namespace is None, and so is the builder's default namespace)
+        self.defaultNamespace = None if cdata == "nons" else "http://www.w3.org/1999/xhtml"
+        self.openElements = [self._N("http://www.w3.org/2000/svg" if cdata is True else self.defaultNamespace)]
 
 
 class _StubParser(object):
